@@ -24,6 +24,17 @@ RULE = (
     "Matcher cases: (template rows, schedule rows) pairs with entries in -16..16 and dims <= 5, one family constructed to match "
     "(template times a unimodular / rational-invertible / random row mix, broadcast rows, outer dims), one family perturbed; "
     "TemplatePattern.matches and Template.matches are compared with the exact row-space decision. "
+    "Pass cases (autoflow_pass): a module with one dart.operation on memref operands for snax_alu (2 inputs + output, 1..3 iteration "
+    "dims) or snax_gemmx (matmul, gemm with bias, rescale-only; optionally one extra outer dim), iteration bounds from multiples and "
+    "non-multiples of the template bound, access patterns = the family's plain patterns with the OUTPUT (and sometimes an input) "
+    "transposed / sheared (O[x+y, y]) / collapsed (O[x+y], O[2x+y]) / strided / a dropped row, or free coefficients 0..4, any loop "
+    "order, element types i8/i16/i32/i64 uniform, as the accelerator uses them, wide inputs with a narrower output, or free; plus the "
+    "enumerated block: snax_alu over (x, y) with 13 output patterns x 7 element type assignments x plain/transposed second input x "
+    "both loop orders x 3 bounds. Pipeline: insert-accfg-op, dart-scheduler (which requests pure output stationarity and memory "
+    "access granularity itself). The dart.schedule the pass emits is checked against the same post-conditions (1)-(3), with the "
+    "template the accelerator hands out for this operation and the element sizes of ALL operands, inputs and output, computed by "
+    "the harness from the operand types of the recipe. 'No schedule' (StopIteration) is a documented outcome, not a violation. "
+    "Non-trivial (autoflow_pass): a schedule was emitted, it has temporal dims and an operand narrower than the 8-byte bank. "
     "Non-trivial (scheduler): at least one yield and (a yield differs from the input, i.e. a tiling or non-identity rotation was "
     "needed, or the template has an unbounded dim or a broadcast row). Non-trivial (matcher_match): exact answer is 'match' for "
     "every operand and the schedule rows are not literally the template rows; (matcher_perturbed): exact answer is 'no match' "
@@ -39,6 +50,14 @@ ASSUMPTIONS = [
     "the dims outside the template)",
     "matcher domain: integer entries in -16..16, at most 5 dims, at least one result row (range of real indexing maps; "
     "float SVD with tolerance 1e-10 is far from its limits there)",
+    "autoflow_pass: the template returned by the accelerator's get_template for the operation is the hardware description the "
+    "emitted schedule has to fit (as in C02); the constraints the pass requests are the two it passes to scheduler() "
+    "(is_pure_output_stationary, is_memory_flexible_enough), the latter over every operand of the operation with the byte size "
+    "of its memref element type (i8 = 1 ... i64 = 8), bank width 8 bytes; every iteration dim occurs as a plain result of some "
+    "operand (the pass reads the iteration bounds back from the operand shapes), coefficients 0..8, bounds 1..64, at most 4 dims",
+    "autoflow_pass: scheduler exceptions NotImplementedError / RuntimeError / AssertionError are documented refusals, an exhausted "
+    "candidate iterator (StopIteration) means 'no schedule satisfies the constraints'; the class label output-granularity:decisive is "
+    "computed with the repository's scheduler and is a label only, never part of the verdict",
 ]
 
 CAP = 200
